@@ -86,3 +86,115 @@ def run(tier='quick', seed=0, first_failure_only=True, high_max=None, seeds=None
     return dict(name='get_sub_seed-exhaustive', bound='high<=%d seeds %d..%d sequences<=%d' % (high_max, seed, seed + seeds - 1, L),
                 rule='non-trivial = sequence of >= 2 requests over one cache on a stream whose first `high` draws collide',
                 cases=cases, nontrivial=nontrivial, failures=failures)
+
+
+# ---------------------------------------------------------------- call sites: prepare_seed (elfi/model/tools.py), RandomStateLoader.load (elfi/loader.py)
+def _ref_sub_seed(seed, index):
+    """the reference: the real get_sub_seed WITHOUT a cache (history-free by construction; itself under contract above)"""
+    return int(native.load_file_module('elfi/utils.py').get_sub_seed(int(seed), int(index)))
+
+
+def check_prepare_seed_history(history):
+    """history = [(batch_seed, index_in_batch or None or 'absent'), ...] on ONE interpreter state (module state persists):
+    every call must deliver seed = get_sub_seed(state word of the generator, index or 0), whatever was requested before."""
+    elfi = native.import_elfi()
+    from elfi.model import tools
+    for k, (bs, idx) in enumerate(history):
+        rs = np.random.RandomState(bs)
+        word = int(rs.get_state()[1][0])
+        kw = dict(random_state=rs, batch_index=3, other='x')
+        if idx != 'absent':
+            kw['index_in_batch'] = idx
+        with native.time_limit(20):
+            inputs, out = tools.prepare_seed(1.5, **kw)
+        want = _ref_sub_seed(word, idx if isinstance(idx, int) else 0)
+        if out.get('seed') != want:
+            return dict(what='prepare_seed call %d of the history (batch seed %d, index_in_batch %r): seed %r, get_sub_seed(state word, index) = %d'
+                             % (k, bs, idx, out.get('seed'), want), input=dict(kind='prepare_seed', history=[list(h) for h in history], at=k))
+        if inputs != (1.5,) or any(out.get(a) is not kw[a] for a in kw):
+            return dict(what='prepare_seed call %d changed the inputs / other keyword arguments' % k, input=dict(kind='prepare_seed', history=[list(h) for h in history], at=k))
+    return None
+
+
+def check_loader_history(history):
+    """history = [(context number, batch_index), ...]: two ComputationContexts with different seeds, loads interleaved;
+    the generator put into the net must be RandomState(get_sub_seed(context.seed, batch_index))"""
+    elfi = native.import_elfi()
+    import networkx as nx
+    from elfi.loader import RandomStateLoader
+    from elfi.model.elfi_model import ComputationContext
+    ctxs = [ComputationContext(batch_size=2, seed=101), ComputationContext(batch_size=2, seed=202)]
+    for k, (c, bi) in enumerate(history):
+        net = nx.DiGraph()
+        net.add_node('_random_state')
+        with native.time_limit(20):
+            RandomStateLoader.load(ctxs[c], net, bi)
+        got = net.nodes['_random_state'].get('output')
+        want = np.random.RandomState(_ref_sub_seed(ctxs[c].seed, bi))
+        if got is None or not all(np.array_equal(a, b) if isinstance(a, np.ndarray) else a == b for a, b in zip(got.get_state(), want.get_state())):
+            return dict(what='RandomStateLoader.load call %d of the history (context seed %d, batch_index %d): the generator is not RandomState(get_sub_seed(seed, batch_index))'
+                             % (k, ctxs[c].seed, bi), input=dict(kind='loader', history=[list(h) for h in history], at=k))
+    return None
+
+
+def run_call_sites(tier='quick', seed=0):
+    cases = 0
+    fails = []
+    seeds = (seed + 77, seed + 20240915)
+    idxs = (0, 1, 3) if tier == 'quick' else (0, 1, 2, 3, 5)
+    hist = []
+    for a in idxs:
+        for b in idxs:
+            for c in (idxs if tier != 'quick' else (1, 3)):
+                hist.append([(seeds[0], a), (seeds[1], b), (seeds[0], c)])            # interleaved batches
+                hist.append([(seeds[0], a), (seeds[0], b), (seeds[1], c)])            # a second batch starting in the middle
+    hist += [[(seeds[0], None), (seeds[1], 2)], [(seeds[0], 'absent'), (seeds[1], 2)], [(seeds[0], 0), (seeds[0], 0), (seeds[0], 2), (seeds[0], 1)]]
+    for h in hist:
+        cases += 1
+        try:
+            f = check_prepare_seed_history(h)
+        except native.NativeTimeout as e:
+            f = None
+        except Exception as e:
+            f = dict(what='prepare_seed history raised %s: %s' % (type(e).__name__, str(e)[:160]), input=dict(kind='prepare_seed', history=[list(x) for x in h], at=-1))
+        if f:
+            f['signature'] = 'c15:prepare_seed-history'
+            fails.append(f)
+            break
+    lh = []
+    for a in idxs:
+        for b in idxs:
+            lh.append([(0, a), (1, b), (0, b), (1, a)])
+            lh.append([(0, b), (0, a), (1, a), (0, a)])
+    for h in lh:
+        cases += 1
+        try:
+            f = check_loader_history(h)
+        except native.NativeTimeout:
+            f = None
+        except Exception as e:
+            f = dict(what='loader history raised %s: %s' % (type(e).__name__, str(e)[:160]), input=dict(kind='loader', history=[list(x) for x in h], at=-1))
+        if f:
+            f['signature'] = 'c15:loader-history'
+            fails.append(f)
+            break
+    return dict(name='sub-seed-call-sites', bound='prepare_seed: %d histories of <= 4 calls over 2 batch seeds, indices %r, index None/absent; RandomStateLoader.load: %d histories of 4 loads over 2 contexts'
+                     % (len(hist), idxs, len(lh)),
+                rule='every derived seed = get_sub_seed(master seed, index) computed without a cache; all cases interleave two master seeds', cases=cases, nontrivial=cases, failures=fails)
+
+
+_replay_input_get_sub_seed = replay_input
+
+
+def replay_input(inp):      # noqa: F811
+    if inp.get('kind') == 'prepare_seed':
+        f = check_prepare_seed_history([tuple(h) for h in inp['history']])
+        if f:
+            print('replay observed:', f['what'])
+        return f is None
+    if inp.get('kind') == 'loader':
+        f = check_loader_history([tuple(h) for h in inp['history']])
+        if f:
+            print('replay observed:', f['what'])
+        return f is None
+    return _replay_input_get_sub_seed(inp)
